@@ -339,3 +339,119 @@ Proof.
   intro Hne. unfold create_link_text. rewrite Hne.
   destruct (match incl with Some b => b | None => negb vis end); [destruct ty|]; reflexivity.
 Qed.
+
+(* ------------------------------------------------------------------ lists of links: encode, split *)
+Inductive lnk := LLocal (u : str) | LUntyped (fr u : str) | LTyped (xt fr u : str).
+Definition render (l : lnk) : str :=
+  match l with
+  | LLocal u => HASH :: u
+  | LUntyped fr u => fr ++ [HASH] ++ u
+  | LTyped xt fr u => xt ++ [SPACE] ++ fr ++ [HASH] ++ u
+  end.
+Definition toks (l : lnk) : list str :=
+  match l with
+  | LLocal u => [HASH :: u]
+  | LUntyped fr u => [fr ++ [HASH] ++ u]
+  | LTyped xt fr u => [xt; fr ++ [HASH] ++ u]
+  end.
+Definition wf_lnk (l : lnk) : Prop :=
+  match l with
+  | LLocal u => wf_uuid u = true
+  | LUntyped fr u => wf_tok fr = true /\ wf_uuid u = true
+  | LTyped xt fr u => wf_tok xt = true /\ wf_tok fr = true /\ wf_uuid u = true
+  end.
+
+Lemma str_prefixb_single c s : str_prefixb [c] s = match s with x :: _ => c =? x | [] => false end.
+Proof. destruct s as [|x s]; cbn; [reflexivity|]. now rewrite andb_true_r. Qed.
+Lemma contains_single c s : py_str_contains s [c] = memN c s.
+Proof.
+  induction s as [|x s IH]; [reflexivity|]. cbn [py_str_contains]. rewrite str_prefixb_single, IH. reflexivity.
+Qed.
+
+Lemma memN_hash_render_tail fr u : memN HASH (fr ++ HASH :: u) = true.
+Proof. rewrite memN_app. cbn. now rewrite orb_true_r. Qed.
+Lemma parse_format_untyped' fr u : wf_tok fr = true -> wf_uuid u = true -> parse_link (fr ++ HASH :: u) = Some (None, Some fr, u).
+Proof. exact (parse_format_untyped fr u). Qed.
+Lemma parse_format_typed' xt fr u : wf_tok xt = true -> wf_tok fr = true -> wf_uuid u = true ->
+  parse_link (xt ++ SPACE :: fr ++ HASH :: u) = Some (Some xt, Some fr, u).
+Proof. exact (parse_format_typed xt fr u). Qed.
+
+Theorem split_tokens_links ls : Forall wf_lnk ls -> split_tokens (flat_map toks ls) None = Ok (map render ls).
+Proof.
+  induction 1 as [|l ls Hl HF IH]; [reflexivity|]. cbn [flat_map map]. destruct l as [u|fr u|xt fr u]; cbn [toks render app wf_lnk] in *.
+  - cbn [split_tokens]. rewrite contains_single. cbn [memN existsb]. rewrite N.eqb_refl. cbn [orb].
+    unfold py_link_fullmatch. rewrite (parse_format_local u Hl). now rewrite IH.
+  - destruct Hl as [Hf Hu]. cbn [split_tokens]. rewrite contains_single, memN_hash_render_tail.
+    unfold py_link_fullmatch. rewrite (parse_format_untyped' fr u Hf Hu). now rewrite IH.
+  - destruct Hl as [Hx [Hf Hu]]. cbn [split_tokens]. rewrite contains_single, (tok_no_hash xt Hx).
+    destruct xt as [|c xt']; [discriminate|]. cbn [split_tokens]. rewrite contains_single, memN_hash_render_tail.
+    unfold py_link_fullmatch. change ((c :: xt') ++ [SPACE] ++ fr ++ HASH :: u) with ((c :: xt') ++ SPACE :: fr ++ HASH :: u).
+    rewrite (parse_format_typed' (c :: xt') fr u Hx Hf Hu). now rewrite IH.
+Qed.
+
+(* str.split() undoes joining with single spaces, for non-empty whitespace-free tokens *)
+Definition no_ws (s : str) : bool := forallb (fun c => negb (is_ws c)) s.
+Lemma split_ws_go_tok t : forall r cur, no_ws t = true -> split_ws_go (t ++ r) cur = split_ws_go r (rev t ++ cur).
+Proof.
+  induction t as [|c t IH]; intros r cur H; [reflexivity|]. cbn in H. apply andb_true_iff in H as [Hc Ht].
+  apply negb_true_iff in Hc. cbn [app split_ws_go]. rewrite Hc. rewrite IH by exact Ht. cbn [rev]. now rewrite <- app_assoc.
+Qed.
+Lemma split_join_ws ts : Forall (fun t => t <> [] /\ no_ws t = true) ts -> py_split_ws (join_with SPACE ts) = ts.
+Proof.
+  unfold py_split_ws. induction 1 as [|t ts [Hne Hws] HF IH]; [reflexivity|].
+  destruct ts as [|t2 ts'].
+  - cbn [join_with]. rewrite <- (app_nil_r t) at 1. rewrite split_ws_go_tok by exact Hws. cbn [split_ws_go]. rewrite app_nil_r.
+    destruct (rev t) eqn:E; [apply (f_equal (@rev N)) in E; rewrite rev_involutive in E; cbn in E; congruence|].
+    rewrite <- E. now rewrite rev_involutive.
+  - cbn [join_with]. rewrite split_ws_go_tok by exact Hws. cbn [split_ws_go]. change (is_ws SPACE) with true. cbn iota.
+    rewrite app_nil_r. destruct (rev t) eqn:E; [apply (f_equal (@rev N)) in E; rewrite rev_involutive in E; cbn in E; congruence|].
+    rewrite <- E, rev_involutive. f_equal. exact IH.
+Qed.
+
+Lemma join_with_app sep a b : a <> [] -> b <> [] -> join_with sep (a ++ b) = join_with sep a ++ sep :: join_with sep b.
+Proof.
+  intros Ha Hb. induction a as [|x a IH]; [congruence|]. destruct a as [|y a'].
+  - cbn [app join_with]. destruct b; [congruence|reflexivity].
+  - change ((x :: y :: a') ++ b) with (x :: (y :: a') ++ b). cbn [join_with app] in *.
+    rewrite IH by discriminate. now rewrite <- app_assoc.
+Qed.
+Lemma toks_nonempty l : toks l <> [].
+Proof. destruct l; discriminate. Qed.
+Lemma join_toks l : join_with SPACE (toks l) = render l.
+Proof. destruct l; reflexivity. Qed.
+Lemma flat_map_toks_nonempty ls : ls <> [] -> flat_map toks ls <> [].
+Proof. destruct ls as [|l ls]; [congruence|]. intros _. cbn. destruct l; discriminate. Qed.
+Lemma join_render ls : join_with SPACE (map render ls) = join_with SPACE (flat_map toks ls).
+Proof.
+  induction ls as [|l ls IH]; [reflexivity|]. destruct ls as [|l2 ls'].
+  - cbn. now rewrite app_nil_r, join_toks.
+  - cbn [map flat_map] in *. rewrite (join_with_app SPACE (toks l)); [|apply toks_nonempty|apply (flat_map_toks_nonempty (l2 :: ls')); discriminate].
+    rewrite join_toks. cbn [join_with]. destruct (map render ls') eqn:E; cbn [map] in *; rewrite <- IH; reflexivity.
+Qed.
+
+Definition ws_free_lnk (l : lnk) : Prop :=
+  match l with LLocal _ => True | LUntyped fr _ => no_ws fr = true | LTyped xt fr _ => no_ws xt = true /\ no_ws fr = true end.
+Lemma uuid_no_ws u : wf_uuid u = true -> no_ws u = true.
+Proof.
+  intro H. apply all_nonempty_forallb in H as [H _]. unfold no_ws. rewrite forallb_forall in *. intros c Hc.
+  specialize (H c Hc). apply negb_true_iff. destruct (is_ws c) eqn:E; [|reflexivity]. exfalso.
+  unfold is_ws in E. repeat (apply orb_true_iff in E as [E|E]); apply N.eqb_eq in E; subst; vm_compute in H; discriminate.
+Qed.
+Lemma no_ws_app a b : no_ws (a ++ b) = no_ws a && no_ws b.
+Proof. unfold no_ws. apply forallb_app. Qed.
+
+(* a space-separated list of links of ANY length, mixing all three forms, survives encode + split *)
+Theorem split_links_join ls : Forall wf_lnk ls -> Forall ws_free_lnk ls ->
+  split_links_model (join_with SPACE (map render ls)) = Ok (map render ls).
+Proof.
+  intros Hwf Hws. unfold split_links_model. rewrite join_render, split_join_ws; [now apply split_tokens_links|].
+  apply Forall_forall. intros t Ht. apply in_flat_map in Ht as [l [Hl Ht]].
+  rewrite Forall_forall in Hwf, Hws. specialize (Hwf l Hl). specialize (Hws l Hl).
+  destruct l as [u|fr u|xt fr u]; cbn [toks wf_lnk ws_free_lnk] in *.
+  - destruct Ht as [<-|[]]. split; [discriminate|]. cbn. now apply uuid_no_ws.
+  - destruct Ht as [<-|[]]. destruct Hwf as [Hf Hu]. split; [destruct fr; discriminate|].
+    rewrite !no_ws_app, Hws. cbn. now apply uuid_no_ws.
+  - destruct Hwf as [Hx [Hf Hu]]. destruct Hws as [W1 W2]. destruct Ht as [<-|[<-|[]]].
+    + split; [destruct xt; [discriminate|discriminate]|exact W1].
+    + split; [destruct fr; discriminate|]. rewrite !no_ws_app, W2. cbn. now apply uuid_no_ws.
+Qed.
